@@ -29,7 +29,7 @@ def gen_plan_c08b(seed, tier, index):
     d = gen_decoder_cfg(r, allow_filter=False)
     if r.random() < 0.7:
         d.update({'type': 'FAST-LOG-RAW', 'lm': True, 'carry': True, 'lm_scale': r.choice([1.0, 2.0, 3.0])})
-    cfg = {'nchars': d['nchars'], 'space': False, 'interp': 2, 'decoder': d}
+    cfg = {'nchars': d['nchars'], 'space': False, 'interp': r.choice([2, 2, 0]), 'decoder': d}
     big = mode == 'decode' and r.random() < 0.3      # enough pages for Pool chunks of two or more
     npages = r.randint(9, 12) if big else r.randint(2, 5)
     ids = ['p%02d' % k for k in range(npages)] if (big or r.random() < 0.7) else list(ID_SETS['dotted'])[:npages] + ['q%d' % k for k in range(max(0, npages - 4))]
@@ -50,11 +50,16 @@ def gen_plan_c08b(seed, tier, index):
         pages.append({'id': pid, 'ext': '.png', 'lines': lines, 'regions': r.choice([1, 1, 2])})
         if mode == 'ocr' and r.random() < 0.3:
             pages[-1]['xml_style'] = 'transkribus'      # importer guesses heights (global numpy RNG)
+            pages[-1]['curved'] = r.random() < 0.6     # 12-point baselines that really bend
     if mode == 'layout':
         # same-size pages whose text regions come from input PAGE XML with different polygons
         nl, nb = r.randint(2, 4), r.randint(12, 24)
+        canvas = [60 + 50 * nl, 80 + 12 * nb]
         for p in pages:
-            p['lines'] = [{'blocks': nb, 'frames': nb, 'seed': r.randrange(1 << 30), 'amb': 0.3} for _ in range(nl)]
+            k = nl if r.random() < 0.6 else r.randint(1, nl)       # same canvas, sometimes a single line of text
+            p['lines'] = [{'blocks': r.choice([nb, nb, r.randint(3, nb)]), 'frames': nb, 'seed': r.randrange(1 << 30), 'amb': 0.3,
+                           'descenders': r.random() < 0.5} for _ in range(k)]
+            p['canvas'] = canvas
             p['region_poly'] = r.choice(['rect', 'rect', 'penta', 'penta2', 'tri_ul', 'tri_lr'])
     plan = {'world': 'pf8', 'mode': mode, 'with_images': False, 'cfg': cfg, 'pages': pages,
             'outputs': ['xml'] + (['alto'] if r.random() < 0.4 else []), 'procs': 1,
